@@ -880,10 +880,15 @@ def r45(ctx: Ctx) -> RuleReport:
                         decided = True
                         break
         else:
-            oks_, sv_ = try_fold(sepx)
-            if oks_ and isinstance(sv_, str) and '\n' not in sv_:
-                rep.violation(kj, fi.loc(rets[0]), f'the parts are joined with {sv_!r}: a comment runs to the end of its line, so the first metadata line swallows the rest')
-                decided = True
+            sx_ = single_def(ctx, fi, sepx) if isinstance(sepx, ast.Name) else sepx
+            alts_ = [sx_.body, sx_.orelse] if isinstance(sx_, ast.IfExp) else [sx_]
+            for alt_ in alts_:
+                oks_, sv_ = try_fold(alt_)
+                if oks_ and isinstance(sv_, str) and '\n' not in sv_ and not decided:
+                    when_ = f' (when `{norm(sx_.test)}` is {alt_ is sx_.body})' if isinstance(sx_, ast.IfExp) else ''
+                    rep.violation(kj, fi.loc(rets[0]), f'the parts are joined with {sv_!r}{when_}: a comment runs to the end of its line, so the first "# ::key value" line swallows every '
+                                  f'later comment and the graph itself - what format() wrote no longer parses to the tree it was written from')
+                    decided = True
     if not decided and not good and terminated and len(rets) == 1 and isinstance(rets[0].value, ast.BinOp) and isinstance(rets[0].value.op, ast.Add):
         # header + node, with header = ''.join(<lines that end in a line feed>)
         hd = single_def(ctx, fi, rets[0].value.left) if isinstance(rets[0].value.left, ast.Name) else rets[0].value.left
